@@ -47,6 +47,14 @@ func (nullConn) SetDeadline(t time.Time) error      { return nil }
 func (nullConn) SetReadDeadline(t time.Time) error  { return nil }
 func (nullConn) SetWriteDeadline(t time.Time) error { return nil }
 
+// sinkConn: like nullConn, but remembers whether anything was written (a ClientHello that left the client)
+type sinkConn struct {
+	nullConn
+	written int
+}
+
+func (s *sinkConn) Write(b []byte) (int, error) { s.written += len(b); return len(b), nil }
+
 type seedReader struct{ r *rand.Rand }
 
 func (s seedReader) Read(b []byte) (int, error) { return s.r.Read(b) }
@@ -281,6 +289,7 @@ type custom struct {
 	wf      bool                           // generated inside the property's precondition
 	mustErr string                         // non-empty: the spec cannot be encoded (reason) - an error is required
 	cause   string                         // which length field the spec overflows (failure key)
+	noCoq   bool                           // too large to ship to Coq as a term: Go-side oracles only
 	oracle  bool                           // apply the validity oracle to a produced hello
 }
 
@@ -294,11 +303,12 @@ func hdrTerm(h *tls.PubClientHelloMsg) string {
 
 // runCustom builds one custom spec and emits its correspondence case (and oracle verdicts).
 func runCustom(c *vh.Ctx, kind string, cu custom) {
+	sink := &sinkConn{}
 	var uc *tls.UConn
 	var perr, berr error
 	stage := "preset"
 	p, val := vh.Recover(func() {
-		uc = tls.UClient(nullConn{}, cu.cfg, tls.HelloCustom)
+		uc = tls.UClient(sink, cu.cfg, tls.HelloCustom)
 		if perr = uc.ApplyPreset(cu.spec); perr != nil {
 			return
 		}
@@ -333,7 +343,20 @@ func runCustom(c *vh.Ctx, kind string, cu custom) {
 	var raw []byte
 	if ok {
 		raw = h.Raw
+		sent := true
 		if cu.mustErr != "" {
+			// "BuildHandshakeState or Handshake returns an error": the hello may still be stopped by Handshake
+			// (e.g. the NextProtos check of clientHandshake) - what counts is that it never leaves the client
+			saved := append([]byte(nil), raw...)
+			var herr error
+			hp, _ := vh.Recover(func() { herr = uc.Handshake() })
+			sent = hp || sink.written > 0 || herr == nil
+			raw = saved
+			if !sent {
+				c.Count("refused-at-handshake/" + kind)
+			}
+		}
+		if cu.mustErr != "" && sent {
 			_, seen := strictWalk(raw)
 			what := cu.cause
 			if what == "" {
@@ -352,6 +375,10 @@ func runCustom(c *vh.Ctx, kind string, cu custom) {
 			// inside the precondition and, by construction, within every length field (C02_encodes_when_fits)
 			c.Fail("refused/"+cu.key, "a spec within the property's limits whose sizes fit every length field was refused", in, berr.Error(), "ClientHello")
 		}
+	}
+	if cu.noCoq {
+		c.Count("go-only/" + kind)
+		return
 	}
 	// the extension objects as MarshalClientHello saw them
 	var its []string
@@ -890,4 +917,7 @@ func run(c *vh.Ctx) {
 	runQUIC(c)
 	runGrease(c)
 	runHRR(c, raws)
+	for _, cu := range limitCases(c) {
+		runCustom(c, "limits", cu)
+	}
 }
